@@ -11,6 +11,10 @@ MRO_PY = 'pytype/pytd/mro.py'
 
 
 def build():
+  return [build_merge(), build_compute_mro()]
+
+
+def build_merge():
   T = Theory('C10')
   E = S.Uninterp('Cls')
   SeqE = S.Seq(E)
@@ -146,11 +150,114 @@ def build():
   return T
 
 
+CM_PY = 'pytype/abstract/class_mixin.py'
+AU_PY = 'pytype/abstract/abstract_utils.py'
+
+
+def build_compute_mro():
+  """Second theory: Class.compute_mro -- builds the rows [[C], L[B1], ..., L[Bn], [B1..Bn]] (with parameterised classes
+  replaced by their base class), hands them to MROMerge (contract proved in the first theory) and maps the result back."""
+  T = build_merge()
+  for c in T.contracts.values():
+    c.verify = False
+    c.note = 'proved in the first theory'
+    if c.qualname == 'MROMerge':
+      # A-MERGE-ELEMS (assumed, not proved in the first theory: needs an induction over the step chain): every class of the
+      # merge result occurs in one of the input rows.  Only used for the absence of KeyError in `base2cls[base]`.
+      c.ensures = list(c.ensures) + ['all(any(x in input_seqs[k] for k in range(len(input_seqs))) for x in result)']
+      c.note = 'proved in the first theory, except the added clause A-MERGE-ELEMS (result elements occur in the input rows): assumed'
+  T.lemmas = []
+  E = T.sorts['Cls']
+  SeqE = S.Seq(E)
+  SS = S.Seq(SeqE)
+  ZE = E.z3()
+  Tok = S.Uninterp('BasesVars')
+  mro_of = z3.Function('mro_of', ZE, SeqE.z3())
+  is_param = z3.Function('is_ParameterizedClass', ZE, z3.BoolSort())
+  base_cls = z3.Function('base_cls', ZE, ZE)
+  bases_tok = z3.Function('bases_of', ZE, Tok.z3())
+  mro_bases = z3.Function('get_mro_bases', Tok.z3(), SeqE.z3())
+  singleton = z3.Function('is_singleton_class', ZE, z3.BoolSort())
+  strip = lambda t: z3.If(is_param(t), base_cls(t), t)
+  T.attr_models[(E.name, 'mro')] = lambda ex, v: V(SeqE, mro_of(v.t))
+  T.attr_models[(E.name, 'base_cls')] = lambda ex, v: V(E, base_cls(v.t))
+  T.attr_models[(E.name, 'isinstance:ParameterizedClass')] = lambda ex, v: is_param(v.t)
+  T.method_models[(E.name, 'bases')] = lambda ex, recv, a, k: V(Tok, bases_tok(recv.t))
+  T.opaque[(AU_PY, 'get_mro_bases')] = lambda ex, bound, node: V(SeqE, mro_bases(ex.coerce(bound['bases'], Tok).t))
+  from engine.values import ClassRef, ModuleRef
+  # `_abstract` is bound under `if TYPE_CHECKING / else` in class_mixin.py: the late-bound pytype.abstract.abstract module
+  T.symbols['_abstract'] = ModuleRef(None, '_abstract')
+  T.builtin_models = {'_abstract.ParameterizedClass': ClassRef(None, 'ParameterizedClass')}
+  B = lambda n, f: Builtin(n, f, needs_ex=True)
+  T.symbols['strip'] = B('strip', lambda ex, a, k, n: V(E, strip(ex.coerce(a[0], E).t)))
+  T.symbols['bases0'] = B('bases0', lambda ex, a, k, n: V(SeqE, mro_bases(bases_tok(ex.coerce(a[0], E).t))))
+  T.symbols['mro_of'] = B('mro_of', lambda ex, a, k, n: V(SeqE, mro_of(ex.coerce(a[0], E).t)))
+  T.assumptions += [
+      'second theory (Class.compute_mro): classes are opaque values; base.mro, base.base_cls and isinstance(base, ParameterizedClass) are stable reads; '
+      'abstract_utils.get_mro_bases(self.bases()) is an opaque function of the class (it picks data[0] of every base variable: unverified)',
+      'strip(c) = c.base_cls for a ParameterizedClass, c otherwise: CPython linearises the unparameterised classes',
+      'A-MERGE-ELEMS: every class of MROMerge\'s result occurs in one of its input rows (assumed; used only for the absence of KeyError in base2cls[base])',
+      'precondition: no class involved is a SINGLETON (as in the first theory)',
+  ]
+  nrows = 'len(bases0(self)) + 2'
+  row_of = ('(strip(self) if k == 0 and p == 0 else (strip(mro_of(bases0(self)[k - 1])[p]) if k <= len(bases0(self)) else strip(bases0(self)[p])))')
+  rows_ok = lambda nb, upto: [
+      'all(len(%s[k]) == (1 if k == 0 else (len(mro_of(bases0(self)[k - 1])) if k <= len(bases0(self)) else len(bases0(self)))) for k in range(%s))' % (nb, upto),
+      'all(all(%s[k][p] == %s for p in range(len(%s[k]))) for k in range(%s))' % (nb, row_of, nb, upto),
+  ]
+  chain = 'all(StepP(hist[p], %s, hist[p + 1]) for p in range(len(%s)))'
+  nos = ['not singleton(strip(self))', 'all(not singleton(strip(y)) for y in bases0(self))',
+         'all(all(not singleton(strip(y)) for y in mro_of(x)) for x in bases0(self))']
+  T.add(Contract(
+      CM_PY, 'Class.compute_mro', collections.OrderedDict(self=E),
+      requires=nos,
+      ensures=[
+          # CPython refuses a class statement that repeats a base
+          'distinct(bases0(self))',
+          # the rows handed to the merge are [[C], L[B1], ..., L[Bn], [B1, ..., Bn]] with parameterised classes stripped ...
+          'len(newbases) == %s' % nrows] + rows_ok('newbases', 'len(newbases)') + [
+          'len(seqs) == len(newbases)', 'all(dedup_of(seqs[k], newbases[k]) for k in range(len(seqs)))', 'same(hist[0], seqs)',
+          # ... and the result, stripped, is the chain of CPython pmerge steps from them to the all-empty state
+          chain % ('strip(result[p])', 'result'), 'allempty(hist[len(result)])',
+      ],
+      raises_ensures={'MROError': [
+          # an mro-error is reported only if CPython refuses the class statement: a repeated base, or a merge that gets stuck
+          'not distinct(bases0(self)) or (len(seqs) == %s and same(hist[0], seqs) and %s and not allempty(hist[len(res)]) and nocand(hist[len(res)]))' % (
+              nrows, chain % ('res[p]', 'res'))]},
+      loops={
+          0: Loop(['len(bases) == %s' % nrows, 'len(newbases) == i'] + rows_ok('newbases', 'i') + [
+              'all(len(bases[k]) == (1 if k == 0 else (len(mro_of(bases0(self)[k - 1])) if k <= len(bases0(self)) else len(bases0(self)))) for k in range(len(bases)))',
+              'all(all(strip(bases[k][p]) == %s for p in range(len(bases[k]))) for k in range(len(bases)))' % row_of,
+              'all(implies(b in base2cls, strip(base2cls[b]) == b) for b in every("Cls"))',
+              'all(all(newbases[k][p] in base2cls for p in range(len(newbases[k]))) for k in range(i))',
+              'distinct(bases0(self))',
+          ], index='i', seq='S_'),
+          1: Loop(['len(baselist) == j', 'all(baselist[p] == strip(row[p]) for p in range(j))',
+                   'all(implies(b in base2cls, strip(base2cls[b]) == b) for b in every("Cls"))',
+                   'all(implies(b in entry(1, base2cls), b in base2cls) for b in every("Cls"))',
+                   'all(baselist[p] in base2cls for p in range(j))',
+                   'same(newbases, entry(1, newbases))'], index='j', seq='R_'),
+      },
+      result=SeqE,
+      ghost={'newbases': SS, 'baselist': SeqE, 'base2cls': S.DictOf(E, E), 'row': SeqE,
+             'seqs': SS, 'hist': S.Seq(SS), 'res': SeqE}))
+  return T
+
+
 NATIVE_IN_QUICK = True
-SURROUND = ['abstract/class_mixin.py Class.compute_mro (builds the rows handed to MROMerge; covered by the bounded VM sweep only)',
+SURROUND = ['abstract_utils.get_mro_bases (which base classes are considered: opaque in the compute_mro contract)',
             'mro._ComputeMRO / GetBasesInMRO (stub classes)', 'attribute.get_attribute/_get_class_attribute walking cls.mro',
             'vm_utils.make_class turning MROError into [mro-error]', 'abstract_utils.get_mro_bases']
 MUTANTS = [
+    # class_mixin.compute_mro (second theory)
+    dict(name='cm_no_bases_row', file=CM_PY, old="    bases = [[self]] + [list(base.mro) for base in bases] + [list(bases)]\n",
+         new="    bases = [[self]] + [list(base.mro) for base in bases]\n"),
+    dict(name='cm_no_dup_check', file=CM_PY, old="    if len(set(bases)) != len(bases):\n", new="    if False:\n"),
+    dict(name='cm_self_missing', file=CM_PY, old="    bases = [[self]] + [list(base.mro) for base in bases] + [list(bases)]\n",
+         new="    bases = [list(base.mro) for base in bases] + [list(bases)]\n"),
+    dict(name='cm_param_not_stripped', file=CM_PY, old="          baselist.append(base.base_cls)\n", new="          baselist.append(base)\n"),
+    dict(name='cm_mro_tail_only', file=CM_PY, old="    bases = [[self]] + [list(base.mro) for base in bases] + [list(bases)]\n",
+         new="    bases = [[self]] + [list(base.mro)[1:] for base in bases] + [list(bases)]\n"),
     dict(name='tail_includes_head', file=MRO_PY,
          old="if any(s for s in seqs if cand in s[1:] and s is not seq):", new="if any(s for s in seqs if cand in s and s is not seq):"),
     dict(name='advance_only_chosen', file=MRO_PY,
